@@ -63,6 +63,11 @@ def cases(tier, seed):
     pwins = [star] if tier == "quick" else c13.WINDOWS_Q
     nm = "~ return-mode: no-matches ~ "
     um = "~ unmatched-mode: keep ~ "
+    # records made of a single empty / whitespace-only cell
+    for pat in ("e", "w", "ke", "ek", "kwn", "wk", "nek", "kew", "ewb", "kbe"):
+        for m in ["[ yes() ]", "[ no() ]"] + singles:
+            yield {"file": pat, "scan": star, "match": m}
+            yield {"file": pat, "scan": star, "match": m, "pre": nm}
     for pat in c13.files(nmax):
         for w in wins:
             for m in progs:
@@ -99,7 +104,8 @@ def run_case(case):
     from mcx import run, sandbox
 
     pat = case["file"]
-    rows = [[] if ch == "b" else [ch, str(i)] for i, ch in enumerate(pat)]
+    # b = blank record, e = a record that is one EMPTY cell, w = a record that is one whitespace-only cell (both are records, not blanks)
+    rows = [[] if ch == "b" else ([""] if ch == "e" else (["   "] if ch == "w" else [ch, str(i)])) for i, ch in enumerate(pat)]
     path = sandbox.write_csv(rows)
     text = f"{case.get('pre', '')}${path}[{refscan.render(case['scan'])}]{case['match']}"
     a = run.run_csvpath(text, "collect")
